@@ -72,6 +72,7 @@ struct World {
     std::string login_name = "root";
     std::vector<std::string> env;
     bool environ_null = false;
+    bool ctype_tr = false;                  // the calling process runs under an LC_CTYPE in which 'i'/'I' are not each other's case (tr_TR, az_AZ): toupper('i') == 'i'
     bool at_secure = false;                 // the process image was started in secure-execution mode (set-uid/set-gid exec): secure_getenv() sees nothing
     std::string cwd = "/";
     int cwd_errno = 0;
